@@ -325,9 +325,26 @@ def c20_run(desc):
             doc = sc.Result(p.code, p.out, p.err).json()
             if doc is None or p.code != 0:
                 return {"blocked": "run failed: exit %s %s" % (p.code, p.err[:200])}
+            stored = stored_logs(r, doc)
+
+            def admitted_keys():
+                adm = set()
+                for (f, t, cmd) in stored:
+                    ok_stream = ("--stdout" in desc["streams"] and f == "stdout.zst") or ("--stderr" in desc["streams"] and f == "stderr.zst")
+                    if ok_stream and (not desc["targets"] or t in desc["targets"]) and (not desc["commands"] or cmd in desc["commands"]):
+                        adm.add((f, t, cmd))
+                return adm
+
+            def caught_up():
+                # the listener prints asynchronously: give it time until everything admitted has arrived
+                _, blks, _ = parse_tail(lis.p.out)
+                per_ = {}
+                for f, t, cmd, body in blks:
+                    per_[(f, t, cmd)] = per_.get((f, t, cmd), b"") + body
+                return all(len(per_.get(k, b"")) >= len(stored[k]) for k in admitted_keys())
+            c.wait(caught_up, 8)
             lis.kill(signal.SIGTERM)
             hdrs, blocks, junk = parse_tail(lis.p.out)
-            stored = stored_logs(r, doc)
             if len(hdrs) != 1:
                 viol.append(("stream-header-count", "listener printed %d stream header lines: %s" % (len(hdrs), hdrs[:3])))
             if junk:
